@@ -45,10 +45,20 @@ def run_unit(path, cwd, unit, rlimit, seed=None, timeout=3600, extra=()):
         cmd += ['--smt-option', 'smt.random_seed=%d' % seed]
     cmd += list(extra)
     t0 = time.time()
+    import signal
+    proc = subprocess.Popen(cmd, cwd=cwd, stdout=subprocess.PIPE, stderr=subprocess.PIPE, text=True, env=_env(), start_new_session=True)
     try:
-        p = subprocess.run(cmd, cwd=cwd, capture_output=True, text=True, timeout=timeout, env=_env())
-        stdout, stderr, rc = p.stdout, p.stderr, p.returncode
-    except subprocess.TimeoutExpired as ex:
+        stdout, stderr = proc.communicate(timeout=timeout)
+        rc = proc.returncode
+    except subprocess.TimeoutExpired:
+        try:
+            os.killpg(proc.pid, signal.SIGKILL)   # the verifier and its z3 child
+        except Exception:
+            pass
+        try:
+            proc.communicate(timeout=30)
+        except Exception:
+            pass
         return {'unit': unit, 'status': 'timeout', 'wall_s': time.time() - t0, 'errors': [], 'cmd': ' '.join(cmd)}
     wall = time.time() - t0
     res = {'unit': unit, 'wall_s': round(wall, 2), 'cmd': ' '.join(cmd), 'rlimit': rlimit, 'seed': seed}
